@@ -6,6 +6,7 @@ ap = argparse.ArgumentParser()
 ap.add_argument("prop"); ap.add_argument("k")
 ap.add_argument("--tests", default="")
 ap.add_argument("--tier", default="quick")
+ap.add_argument("--round", default="")
 a = ap.parse_args()
 P, K = a.prop, a.k
 WT = f"/tmp/mut/{P}"; OUT = f"/tmp/mut/{P}_out"
@@ -41,11 +42,11 @@ if not ok:
 rcc, oc = sh(f"/verif/tools/try_mutant_iso.sh {P} {diff} {a.tier}", cwd="/verif", timeout=3000)
 caught = "VIOLATION" in oc
 kind = "failing-input" if re.search(r"VIOLATION property=\S+ replay=\S+\s*$", oc, re.M) else ("no-failing-input-found" if caught else "missed")
-dst = f"/verif/seeded/{P}_m{K}"
+dst = f"/verif/seeded/{P}_{a.round}m{K}"
 os.makedirs(dst, exist_ok=True)
 shutil.copy(diff, f"{dst}/patch.diff"); shutil.copy(demo, f"{dst}/demo.py"); shutil.copy(notes, f"{dst}/notes.md")
 meta = {
-    "property": P, "id": f"{P}_m{K}",
+    "property": P, "id": f"{P}_{a.round}m{K}",
     "needs_to_manifest": open(notes).read().strip().split("\n\n")[-1][:600],
     "confirmed": {"demo_on_unchanged_tree_exit": rc0, "demo_with_change_exit": rc1,
                   "existing_tests_with_change": tests + ["test/test_persistent_dict.py (10 known DBMDict failures, 12 passed, as baseline)"],
